@@ -114,8 +114,9 @@ def parseMod (j : Json) : R (Mod × List (Nat × Nat)) := do
   -- the polled parameters are those the model of the poll flag computation yields for the declared read functions
   let en ← fldBool j "enabled"
   let decls ← (← fldArr j "decls").mapM parseDecl
-  return (⟨en, ← fldNat j "slow", if en then PollFlags.polledIdx 0 decls else [], ← fldNat j "pollinterval", iv, false, 0, 0, 0⟩,
-          stamps)
+  let pi ← fldNat j "pollinterval"
+  if iv ≠ pi then throw "a thread starts with PollInfo.interval = pollinterval"
+  return (startMod en (← fldNat j "slow") (if en then PollFlags.polledIdx 0 decls else []) pi, stamps)
 
 /-- the parameters the poller may read are computed by the specification (`mayPoll`) from how the class declares
 its read functions; a module with polling disabled has none -/
@@ -171,9 +172,7 @@ def handle (j : Json) : R Json := do
     let wakes ← (← fldArr j "waits").mapM parseWake
     let gaps ← (← fldArr j "gaps").mapM (fun g => do (← arr g).mapM parseExt)
     let env := mkEnv advs.toArray calls.toArray wakes.toArray gaps.toArray
-    let σ0 : PollState := { clock := ← fldNat j "clock", nRead := 0, nCall := 0, nWait := 0, trig := false,
-                            mods := ms.map (·.1), toPoll := none, stamp := initStamp (ms.map (·.2)),
-                            refreshed := initStamp (ms.map (·.2)) }
+    let σ0 : PollState := startState (← fldNat j "clock") (ms.map (·.1)) (initStamp (ms.map (·.2)))
     let p := prologue consts env σ0
     let (σ, evs, dbg) := loopTurns env advs.length (advs.length + 1) p.σ p.evs.toArray #[]
     let wantDbg := (j.getObjVal? "debug").toOption.isSome
